@@ -14,6 +14,8 @@ Section S.
 Variable c : cfg.
 Variable wake : state -> nat -> bool.
 Hypothesis LL : lossless c.
+(* the dispatch loop of /repo: no re-check of the keys the Range yields, hence no `break` *)
+Hypothesis NB : stalebreak c = false.
 
 Record InvE (st : state) : Prop := {
   ie_sub : forall s, ~ In s (unsubcalled st) -> owed st s <> [] -> In s (subs st);
@@ -61,7 +63,7 @@ Lemma owed_step : forall st e st',
   (live st' = true -> forall s m, ~ In s (unsubcalled st') -> In m (owed st' s) -> In m (log st' s) \/ pend_for st' s m).
 Proof.
   intros st e st' UN SU OW H. destruct LL as (B0 & BK & I0 & O0). unfold pend_for, log in *.
-  unfold step in H; rewrite ?I0, ?O0 in H; unfold passes in H; simpl in H.
+  unfold step in H; rewrite ?I0, ?O0, ?NB in H; unfold passes in H; simpl in H.
   step_inv H; ssimpl.
   all: repeat match goal with
        | E : loop _ = _ |- _ => rewrite E in *
